@@ -156,6 +156,39 @@ func writeSink(call ssa.CallInstruction) ssa.Value {
 	return nil
 }
 
+// onlyFailingReturnsFrom: every path from the instruction to a return ends in
+// a return whose error is provably non-nil (a failure is already being
+// reported; the discarded call is cleanup).
+func onlyFailingReturnsFrom(in ssa.Instruction) bool {
+	fn := in.Parent()
+	if errResultIndex(fn.Signature) < 0 {
+		return false
+	}
+	seen := map[*ssa.BasicBlock]bool{}
+	found := false
+	var dfs func(b *ssa.BasicBlock) bool
+	dfs = func(b *ssa.BasicBlock) bool {
+		if seen[b] {
+			return true
+		}
+		seen[b] = true
+		if ret, ok := b.Instrs[len(b.Instrs)-1].(*ssa.Return); ok {
+			found = true
+			return errorIsNonNilAt(ret)
+		}
+		if _, ok := b.Instrs[len(b.Instrs)-1].(*ssa.Panic); ok {
+			return true
+		}
+		for _, s := range b.Succs {
+			if !dfs(s) {
+				return false
+			}
+		}
+		return true
+	}
+	return dfs(in.Block()) && found
+}
+
 // semanticWriter: archive writers validate what is written (header fields,
 // declared size vs bytes written); their errors are meaningful even over an
 // in-memory buffer.
@@ -616,6 +649,10 @@ func checkC06(c *Ctx, r *Report) {
 					return
 				}
 			}
+			if o != nil && (o.Name() == "Close" || o.Name() == "Flush" || qualifiedName(o) == "os.Remove") && onlyFailingReturnsFrom(in) {
+				r.Pass("E1", construct, c.instrPos(in), "idiom: cleanup on a path that can only end in a non-nil error return")
+				return
+			}
 			r.Fail("E1", construct, c.instrPos(in), "the error result of this call is discarded: a failure here would go unreported")
 		})
 	}
@@ -989,6 +1026,9 @@ func closerChecked(c *Ctx, fn *ssa.Function, create *ssa.Call, method string) (b
 				ok2 = true
 			}
 		}
+		if !ok2 && blockCovers(rangeCloses(fn, aliases, method, true), ret) {
+			ok2 = true
+		}
 		if !ok2 {
 			return false, fmt.Sprintf("return at %s can report success although no %s() of this writer with a checked error precedes it on every path (a deferred %s alone drops the error): buffered output may be lost silently", c.instrPos(ret), method, method)
 		}
@@ -1015,13 +1055,14 @@ func closerCompletedBeforeUse(c *Ctx, fn *ssa.Function, create *ssa.Call, method
 			closes = append(closes, call)
 		}
 	})
+	loops := rangeCloses(fn, aliases, method, false)
 	dominated := func(at ssa.Instruction) bool {
 		for _, cl := range closes {
 			if instrDominates(cl, at) {
 				return true
 			}
 		}
-		return false
+		return blockCovers(loops, at)
 	}
 	rets := 0
 	for _, b := range fn.Blocks {
@@ -1372,6 +1413,7 @@ func checkD9(c *Ctx, r *Report) {
 		}
 	}
 	// rpm epoch: the parse error is propagated
+	epochPA := newProv(c)
 	if pk := c.PackagerByFormat("rpm"); pk != nil {
 		reach := c.Reach(pk.Package)
 		found := false
@@ -1388,12 +1430,7 @@ func checkD9(c *Ctx, r *Report) {
 				if len(call.Call.Args) == 0 {
 					return
 				}
-				ld, ok := call.Call.Args[0].(*ssa.UnOp)
-				if !ok {
-					return
-				}
-				p, root := addrPath(ld.X)
-				if root == nil || p != "Epoch" {
+				if !epochPA.Of(call.Call.Args[0]).has("Info.Epoch") {
 					return
 				}
 				found = true
@@ -1406,8 +1443,8 @@ func checkD9(c *Ctx, r *Report) {
 					if ok2 {
 						why = "parse failure of the epoch returns a non-nil error"
 					}
-					if !usedInNilTest(val) {
-						ok2, why = false, "the epoch parse error is never tested"
+					if !usedInNilTest(val) && !flowsToReturn(val) {
+						ok2, why = false, "the epoch parse error is neither tested nor returned"
 					}
 				}
 				r.Check(ok2, "D9", "rpm: unparsable epoch in "+c.funcKey(fn), c.instrPos(call), why)
@@ -1446,6 +1483,22 @@ func checkD9(c *Ctx, r *Report) {
 		r.Check(okName, "D9", "archlinux: invalid package name in "+c.funcKey(pk.Package), c.pos(pk.Package.Pos()), "the name-validity test's failing edge must return a non-nil error before any output is written")
 	}
 	r.Floor("D9", n, 6)
+}
+
+// flowsToReturn: the value is an operand of a return (also through the
+// defer-spill cell).
+func flowsToReturn(v ssa.Value) bool {
+	for _, ref := range *v.Referrers() {
+		switch x := ref.(type) {
+		case *ssa.Return:
+			return true
+		case *ssa.Store:
+			if _, ok := x.Addr.(*ssa.Alloc); ok {
+				return true
+			}
+		}
+	}
+	return false
 }
 
 func usedInNilTest(v ssa.Value) bool {
@@ -1610,4 +1663,172 @@ func checkE3(c *Ctx, r *Report) {
 		}
 		r.Check(okMain, "E3", "cmd/nfpm.main: exit function", "-", "main must hand os.Exit to the command so that a failing package command exits non-zero")
 	}
+}
+
+// rangeCloseDone recognises the idiom
+//
+//	for _, x := range []io.Closer{a, b} { if err := x.Close(); err != nil { return ..., err } }
+//
+// For a Close/Flush call whose receiver is the element of a range loop over a
+// local literal array, it returns the loop's exit block and the values stored
+// into the array, provided the loop visits every element and cannot be left
+// other than through its exhausted condition or a return: the exit block has
+// the loop header as its only predecessor, the index runs from -1 in steps of
+// one against the length of the whole array, and every back edge is dominated
+// by the call. At the exit block every element has then been closed.
+func rangeCloseDone(call *ssa.Call) (*ssa.BasicBlock, []ssa.Value) {
+	recv := callReceiver(call)
+	ld, ok := recv.(*ssa.UnOp)
+	if !ok || ld.Op != token.MUL {
+		return nil, nil
+	}
+	ia, ok := ld.X.(*ssa.IndexAddr)
+	if !ok {
+		return nil, nil
+	}
+	var arr *ssa.Alloc
+	switch x := ia.X.(type) {
+	case *ssa.Slice:
+		if x.Low != nil || x.High != nil || x.Max != nil {
+			return nil, nil
+		}
+		arr, _ = x.X.(*ssa.Alloc)
+	case *ssa.Alloc:
+		arr = x
+	}
+	if arr == nil {
+		return nil, nil
+	}
+	at, ok := derefType(arr.Type()).Underlying().(*types.Array)
+	if !ok {
+		return nil, nil
+	}
+	inc, ok := ia.Index.(*ssa.BinOp)
+	if !ok || inc.Op != token.ADD {
+		return nil, nil
+	}
+	phi, ok := inc.X.(*ssa.Phi)
+	if k, isK := inc.Y.(*ssa.Const); !ok || !isK || k.Value == nil || k.Int64() != 1 {
+		return nil, nil
+	}
+	if len(phi.Edges) != 2 {
+		return nil, nil
+	}
+	init := false
+	for _, e := range phi.Edges {
+		if k, isK := e.(*ssa.Const); isK && k.Value != nil && k.Int64() == -1 {
+			init = true
+		} else if e != ssa.Value(inc) {
+			return nil, nil
+		}
+	}
+	if !init {
+		return nil, nil
+	}
+	h := phi.Block()
+	ifi, ok := h.Instrs[len(h.Instrs)-1].(*ssa.If)
+	if !ok {
+		return nil, nil
+	}
+	cmp, ok := ifi.Cond.(*ssa.BinOp)
+	if !ok || cmp.Op != token.LSS || cmp.X != ssa.Value(inc) {
+		return nil, nil
+	}
+	switch l := cmp.Y.(type) {
+	case *ssa.Const:
+		if l.Value == nil || l.Int64() != at.Len() {
+			return nil, nil
+		}
+	case *ssa.Call:
+		b, isB := l.Call.Value.(*ssa.Builtin)
+		if !isB || b.Name() != "len" || len(l.Call.Args) != 1 || l.Call.Args[0] != ia.X {
+			return nil, nil
+		}
+	default:
+		return nil, nil
+	}
+	done := h.Succs[1]
+	if len(done.Preds) != 1 || done.Preds[0] != h {
+		return nil, nil
+	}
+	for _, p := range h.Preds {
+		if h.Dominates(p) || p == h {
+			// back edge: this iteration must have passed the call
+			if p != call.Block() && !call.Block().Dominates(p) {
+				return nil, nil
+			}
+		}
+	}
+	// the array's elements: constant-index stores only, one per slot
+	var elems []ssa.Value
+	slots := map[int64]bool{}
+	for _, ref := range *arr.Referrers() {
+		switch x := ref.(type) {
+		case *ssa.IndexAddr:
+			if x == ia {
+				continue
+			}
+			k, isK := x.Index.(*ssa.Const)
+			if !isK || k.Value == nil {
+				return nil, nil
+			}
+			for _, r2 := range *x.Referrers() {
+				st, isSt := r2.(*ssa.Store)
+				if !isSt || st.Addr != ssa.Value(x) || slots[k.Int64()] {
+					return nil, nil
+				}
+				slots[k.Int64()] = true
+				elems = append(elems, st.Val)
+			}
+		case *ssa.Slice:
+			if ssa.Value(x) != ia.X {
+				return nil, nil
+			}
+		default:
+			return nil, nil
+		}
+	}
+	return done, elems
+}
+
+// rangeCloses lists the exit blocks of range-close loops (see rangeCloseDone)
+// that close one of the aliases; checkedOnly keeps only loops whose call's
+// error result is used.
+func rangeCloses(fn *ssa.Function, aliases map[ssa.Value]bool, method string, checkedOnly bool) []*ssa.BasicBlock {
+	var out []*ssa.BasicBlock
+	forEachInstr(fn, func(in ssa.Instruction) {
+		call, ok := in.(*ssa.Call)
+		if !ok {
+			return
+		}
+		o := calleeObj(call)
+		if o == nil || o.Name() != method {
+			return
+		}
+		if checkedOnly {
+			if val, _ := errValueOf(call); val == nil {
+				return
+			}
+		}
+		done, elems := rangeCloseDone(call)
+		if done == nil {
+			return
+		}
+		for _, e := range elems {
+			if aliases[e] {
+				out = append(out, done)
+				return
+			}
+		}
+	})
+	return out
+}
+
+func blockCovers(bs []*ssa.BasicBlock, at ssa.Instruction) bool {
+	for _, b := range bs {
+		if b == at.Block() || b.Dominates(at.Block()) {
+			return true
+		}
+	}
+	return false
 }
